@@ -25,7 +25,7 @@ type outInfo struct {
 	name   string
 	tx     *types.Tx
 	idx    int
-	kind   byte // 'n' normal, 'v' vote, 'r' retirement (never a utxo), 'k' contract registration (normal utxo)
+	kind   byte // 'n' normal, 'v' vote, 'r' retirement, 'k' contract registration (both are retirements: never utxos)
 	amount uint64
 	block  string // block that carries the creating tx ("" while unconfirmed)
 	vote   []byte
@@ -90,6 +90,12 @@ var votePub = func() []byte {
 
 // registers the txs' outputs under fresh names and returns the tx name
 func (ln *ledgerNames) addTx(tx *types.Tx, ins []string, kinds []byte, coinbase bool) *txInfo {
+	// the same transaction (e.g. identical coinbase txs of two blocks at one height) keeps its name
+	for _, ti := range ln.txs {
+		if ti.tx.ID == tx.ID {
+			return ti
+		}
+	}
 	ln.nTx++
 	ti := &txInfo{name: fmt.Sprintf("t%d", ln.nTx), tx: tx, ins: ins}
 	for i, o := range tx.Outputs {
@@ -264,7 +270,7 @@ func (nc *nodeCase) spendable(bv *branchView, h uint64) []string {
 			continue
 		}
 		o := nc.ln.outs[name]
-		if o.amount == 0 || o.kind == 'r' {
+		if o.amount == 0 || o.kind == 'r' || o.kind == 'k' {
 			continue
 		}
 		if o.cb && ch+consensus.CoinbasePendingBlockNumber > h {
@@ -425,7 +431,25 @@ func (nc *nodeCase) oracleReplay(when string) {
 			return
 		}
 	}
-	got, want := nc.sut.dumpUtxo(nc.ln), fresh.dumpUtxo(nc.ln)
+	// the block height of a normal entry constrains nothing: compare it only for coinbase
+	// (maturity) and vote (lock) entries; spent non-coinbase records are equivalent to none
+	norm := func(d string) string {
+		m := splitDump(d)
+		var parts []string
+		for k, v := range m {
+			f := strings.Split(v, "/")
+			if len(f) == 3 && f[2] == "1" && f[0] != "c" {
+				continue // a spent normal / vote entry is as good as no entry: nothing can spend it
+			}
+			if len(f) == 3 && f[0] == "n" {
+				v = "n/-/" + f[2]
+			}
+			parts = append(parts, k+"="+v)
+		}
+		sort.Strings(parts)
+		return "utxo=" + strings.Join(parts, ",")
+	}
+	got, want := norm(nc.sut.dumpUtxo(nc.ln)), norm(fresh.dumpUtxo(nc.ln))
 	if got != want {
 		// classify: only heights of restored (un-spent) vote outputs differ?
 		g, w := splitDump(got), splitDump(want)
